@@ -132,3 +132,8 @@ def run(ctx, proofs_ok):
     q = ctx.tier == "quick"
     conc.run_scenarios(ctx, [("tcp-watch-incr", 10 if q else 100, w) for w in ((0, 25) if q else (0, 10, 30, 60))],
                        "optimistic increment loop on 5 connections")
+    if ctx.violations:
+        return
+    # the watch check is atomic with the queued bodies also against blocking pops (gate protocol, `gev` lines)
+    conc.run_scenarios(ctx, [("tcp-watch-bpop", 4 if q else 40, 0), ("tcp-exec-bpop", 6 if q else 60, 0)],
+                       "WATCH / EXEC against blocking pops of other connections")
